@@ -56,4 +56,3 @@ func TestPort0Bitmap(t *testing.T) {
 		}
 	}
 }
-
